@@ -198,6 +198,23 @@ def check_revalidate(ctx):
         # the scan itself never filters by expiry (an older generation must not reappear)
         cm = [c for c in expiry_comparisons(b)]
         ctx.check(not cm, inst, "FORBID", b.path, "the scan does not compare expiries while choosing winners", b.where(cm[0][0]) if cm else None)
+        # ... nor inside any closure of the scan (e.g. `recovery_time.is_some_and(|now| now > ttl_expiry)`)
+        from rules.common import closure_expr_parents
+        for c in ctx.prog.closures_of(b):
+            tr = A.tracer(c)
+            for n in c.nodes:
+                v = None
+                if n.kind == "assign" and n.ev.get("rv") == "bin" and n.ev["op"] in ("Lt", "Le", "Gt", "Ge"):
+                    v = tr.node_value(n.id)
+                if v is None:
+                    continue
+                parent, ups = closure_expr_parents(ctx.prog, c, v)
+                hit = any(_is_exp(parent, u) for u in ups) if parent is not None else False
+                ctx.check(not hit, inst, "FORBID", c.path, "no closure of the scan compares a parsed expiry with the clock", c.where(n.id), nontrivial=hit)
+        # the only consumer of recovery_time is remove_expired_recovery_winners
+        rt_uses = [n for n in b.calls() if "recovery_time" in (names_of(b, A.tracer(b).operand(n.ev["args"][0])) if n.ev["args"] else set())]
+        ctx.check(all(R.call_matches(n.ev, "Option::is_some_and") is False and R.call_matches(n.ev, "Option::map") is False and R.call_matches(n.ev, "Option::filter") is False for n in rt_uses),
+                  inst, "FORBID", b.path, "recovery_time is consumed only by the post-scan expiry pass", None)
         # recovery_time is taken only when TTL is enabled
         th = ctx.sites(b, R.call("bool::then"), inst, floor=1)
         ok = any(R.recv_expr(b, b.nodes[t]).has_field("FeoxStore", "enable_ttl") for t in th)
